@@ -16,10 +16,10 @@ func init() {
 		Level: "Decides that every rule evaluation obtains one appender and commits it on every path, that the set of series remembered as 'produced by the previous successful evaluation' is replaced only after a nil-error commit and only contains series whose append succeeded, " +
 			"that stale markers are appended for the series of that remembered set which were not produced now, that rules are evaluated in index order (sequentially, or batch by batch with a wait-group barrier after every batch and before clean-up), " +
 			"that a reload carries over both the per-rule sets of matched rules and the not-yet-written stale series of earlier reloads and adds the sets of unmatched rules, that a stopped group marked stale queues all its series, and that the queued series are forgotten only after their stale markers were committed.",
-		Note:     "Trusted: go/packages, go/types, go/cfg; rule tables in checker/c45.go.",
-		Covers:   "Group.Eval (eval closure, commit defer, batches), Group.cleanupStaleSeries, Group.CopyState, Group.run (stop path).",
-		NotCover: "the evaluated vectors, timestamps and query offsets; dependency analysis that forms the batches.",
-		Run:      runC45,
+		Note:           "Trusted: go/packages, go/types, go/cfg; rule tables in checker/c45.go.",
+		Covers:         "Group.Eval (eval closure, commit defer, batches), Group.cleanupStaleSeries, Group.CopyState, Group.run (stop path).",
+		NotCover:       "the evaluated vectors, timestamps and query offsets; dependency analysis that forms the batches.",
+		Run:            runC45,
 		MinObligations: 35,
 	})
 }
